@@ -61,8 +61,11 @@ def Restart(workingDirectory, restarts, componentName, log, exitReason, exitCode
 def configs(thorough):
     ms = [None, -1, 0, 1, 2, 3] if thorough else [None, -1, 0, 1, 3]
     files = ['unset', '', 'restart.py', 'custom.py', 'missing.py'] if thorough else ['unset', '', 'custom.py']
-    ons = [None, ['KnownIssue', 'ResourceExhausted'], ['SystemIssue'], ['Success'], []] if thorough else \
-        [None, ['KnownIssue', 'ResourceExhausted'], []]
+    # (SubmissionFailed may itself be listed as restartable: the cap on consecutive re-submissions still applies; it once
+    # did not, fixed in /repo 0d7950c)
+    ons = [None, ['KnownIssue', 'ResourceExhausted'], ['SystemIssue'], ['Success'], [], ['SubmissionFailed'],
+           ['SubmissionFailed', 'ResourceExhausted']] if thorough else \
+        [None, ['KnownIssue', 'ResourceExhausted'], [], ['SubmissionFailed', 'ResourceExhausted']]
     for m in ms:
         for f in files:
             for on in ons:
